@@ -75,7 +75,7 @@ def _injected(rng, cls):
 
 
 def cases(rng, tier):
-    n_inj, n_clean = {"quick": (1350, 450), "thorough": (24000, 8000), "search": (6000, 2000)}[tier]
+    n_inj, n_clean = {"quick": (1350, 450), "thorough": (36000, 12000), "search": (6000, 2000)}[tier]
     k = 0
     while k < n_inj:
         cls = gen_prog.CLASSES[k % len(gen_prog.CLASSES)]
